@@ -81,6 +81,16 @@ def reader_inputs(rnd, tier):
            "real r = true;", "bool b = 1.0;", "real r; r.x == 1.0;", "class A { real w; } A a; a.w.w == 1.0;", "real r; real r;", "class A { } class A { }", "predicate P() { } predicate P() { }"]
     for p in sem:
         out.append(("semantic-error", p.encode()))
+    # numerals around the 64-bit boundary: 17 to 21 digits, integer and decimal, odd and even last digit
+    for nd in (17, 18, 19, 20, 21):
+        for digits in ("9" * nd, "1234567890123456789012"[:nd], "2" + "0" * (nd - 1), "1" * nd):
+            out.append(("boundary-numeral", ("int i = %s;" % digits).encode()))
+            out.append(("boundary-numeral", ("real x = .%s; x >= 0.1;" % digits).encode()))
+            out.append(("boundary-numeral", ("real x = 0.%s;" % digits).encode()))
+            out.append(("boundary-numeral", ("real x = %s.%s;" % (digits[:nd // 2], digits[nd // 2:])).encode()))
+    out += [("boundary-numeral", b"int i = 9223372036854775807;"), ("boundary-numeral", b"int i = 9223372036854775808;"), ("boundary-numeral", b"int i = -9223372036854775808;"),
+            ("boundary-numeral", b"real x = 9223372036854775807.5;"), ("boundary-numeral", b"real x = 3037000500 * 3037000500;"), ("boundary-numeral", b"real x = 999999999999999999 * 999999999999999999;"),
+            ("boundary-numeral", b"real x = 1 / 999999999999999999 / 999999999999999999;"), ("boundary-numeral", b"real x = 999999999999999999 + 999999999999999999 + 999999999999999999 + 999999999999999999 + 999999999999999999 + 999999999999999999 + 999999999999999999 + 999999999999999999 + 999999999999999999 + 999999999999999999;")]
     for i in range(60 if tier == "quick" else 1500):
         k = rnd.randint(1, 3)
         prog = " ".join(rnd.sample(decls, rnd.randint(2, 5))) + " " + " ".join("%s %s %s;" % (rnd.choice(terms), rnd.choice(rels), rnd.choice(terms)) for _ in range(k))
